@@ -60,8 +60,15 @@ def cases(tier, seed):
         yield {"kind": "override", "idx": i, "seed": seed, "cfg_mask": i >> 4, "arg_mask": i & 15}
         if i & 15:  # ... and the same with explicit values that switch the option off
             yield {"kind": "override", "idx": i, "seed": seed, "cfg_mask": i >> 4, "arg_mask": i & 15, "off": True}
-    dumps = [c for c in combos if c["form"] in ("cluster", "repo_json")]
-    for i, c in enumerate(dumps if tier == "thorough" else dumps[:40]):
+    # dumps of environments whose repository / cluster came from an inline object, a JSON file, a YAML template rendered
+    # with parameters, or nested files
+    dumps = [c for c in combos if c["form"] in ("cluster", "repo_json", "repo_yaml_template", "env_json_nested")]
+    if tier != "thorough":
+        by_form = {}
+        for c in dumps:
+            by_form.setdefault(c["form"], []).append(c)
+        dumps = [c for form in sorted(by_form) for c in by_form[form][::max(1, len(by_form[form]) // 16)][:16]]
+    for i, c in enumerate(dumps):
         yield dict(c, kind="dump", idx=i)
 
 
@@ -164,6 +171,7 @@ def build_cluster(case, root, cfgdir):
         ccfg["runner"] = {"type": case["runner"]}
     form = case["form"]
     os.makedirs(cfgdir, exist_ok=True)
+    build_cluster.last = {}
     if form == "create":
         return StorageBackend.create(scfg["type"], scfg), None
     if form == "cluster":
@@ -202,8 +210,10 @@ def build_cluster(case, root, cfgdir):
             json.dump({"name": "e", "repos": ["repos/r.json"]}, f)
         e = m.Environment.from_file(os.path.join(cfgdir, "env.json"))
         cl = e.get_cluster("c")
+        build_cluster.last = {"env": e}
         return (cl.storage if cl else None), cl
     cl = repo.clusters.get("c")
+    build_cluster.last = {"repo": repo}
     return (cl.storage if cl else None), cl
 
 
@@ -244,8 +254,15 @@ def run_matrix(case, out, fail, sc, dump=False):
     dirs = [os.path.join(cfgroot, "data"), os.path.join(cfgroot, "meta")]
     if dump:
         # the dumped environment must yield a cluster with equivalent behaviour
-        repo = m.ConfigurationRepository(name="r", clusters={"c": cluster})
-        e1 = m.Environment(name="e", repos=[repo])
+        # (the objects as they were built: the repository read from its file or rendered from its template, the
+        # environment read from its file - not a new repository around the cluster)
+        made = dict(build_cluster.last)
+        if made.get("env") is not None:
+            e1 = made["env"]
+        elif made.get("repo") is not None:
+            e1 = m.Environment(name="e", repos=[made["repo"]])
+        else:
+            e1 = m.Environment(name="e", repos=[m.ConfigurationRepository(name="r", clusters={"c": cluster})])
         d = json.loads(json.dumps(e1.to_dict()))
         try:
             e2 = m.Environment(d)
